@@ -427,6 +427,10 @@ func init() {
 		collidingNamesUnit("C14."),
 	}})
 	reg(&Property{ID: "C13", Units: []Unit{
+		{Name: "schema-texts/legacy-vs-current-spelling", Harness: "pkg/generator:HarnessC13Texts", Layer: "L3",
+			Desc:   "every document of the schema-text corpus, the composition corpus and two reference corpora (references from properties, items, additionalProperties, allOf and anyOf branches to typed objects, a mixin that only adds required, the anything-schema, a format-typed string, an enum, a definition that refers on) spelled with current keywords and with any non-empty subset of the legacy spellings (id, definitions, \"#/definitions/...\" in $ref strings): real parser and generator on both, same outcome and byte-identical output, with and without --extra-imports",
+			Bounds: "13 concrete documents x 7 respelling subsets x 2 option sets; decided by comparing concrete outputs of the interpreted generator (no solver query: the schema texts carry no symbolic value); the document with both blocks is excluded",
+			Panic:  "inconclusive"},
 		{Name: "legacy-vs-current-keywords", Harness: "pkg/schemas:HarnessC13Keywords", Layer: "L1",
 			Desc:   "a symbolic schema DOCUMENT (symbolic $id, title, type, minimum; one definition, one dependent schema and one property, each a small type with symbolic content; every presence flag symbolic) and its re-spelling with any subset of id/$id, definitions/$defs, dependencies/dependentSchemas (applied at every object level through a renamed view of the same document) are pushed through the REAL Schema.UnmarshalJSON / Type.UnmarshalJSON / TypeList.UnmarshalJSON with the encoding/json decode stub: same parse outcome, and parsed values equal on every pkg/schemas field that code outside the parser touches (set computed from SSA on every run)",
 			Bounds: "schema documents with the listed keys only (all others absent), E=1 entry per map, nesting depth 2; root has a type; equal parsed values imply equal output because generation is a deterministic function of the parsed value and the options (C12); the YAML half of C13 (goccy/go-yaml byte-level parser) and \"#/definitions/\" vs \"#/$defs/\" inside $ref strings (covered by C10's shared-definition unit) are not part of this unit",
